@@ -87,7 +87,7 @@ func storesGlobal(fn *ssa.Function, g *ssa.Global) bool {
 // ---------- guarded fields / lock ghost state ----------
 
 func (r *Runner) typeSpecOf(t types.Type) *TypeSpec {
-	if n, ok := t.(*types.Named); ok {
+	if n, ok := t.(*types.Named); ok && n.Obj() != nil && n.Obj().Pkg() != nil {
 		return r.specs.Types[n.Obj().Pkg().Path()+"."+n.Obj().Name()]
 	}
 	return nil
@@ -185,6 +185,7 @@ func (r *Runner) lockAcquire(st *State, p *Place, mode string, pos token.Pos) {
 			st.assume(env.EvalBool(c.E, st))
 		}
 	}
+	r.applyRely(st)
 	if st.lockSnap == nil {
 		st.lockSnap = map[string]*State{}
 	}
@@ -243,6 +244,11 @@ func (r *Runner) lockRelease(st *State, p *Place, pos token.Pos, reader bool) {
 				}
 			}
 		}
+	}
+	// a critical section that made a wait condition false must have signalled before releasing
+	if ns, ok := st.ghost["needsignal:"+key]; ok {
+		r.oblige(st, "signal", "wait condition falsified without Broadcast/Signal before unlock", Not(ns), pos)
+		delete(st.ghost, "needsignal:"+key)
 	}
 	// critical-section postconditions of the function under verification
 	if r.curSpec != nil && len(r.curSpec.CSEnsures) > 0 && len(st.frames) > 0 {
@@ -745,7 +751,12 @@ func (r *Runner) condWait(st *State, f *Frame, c Val, pos token.Pos) bool {
 	r.lockRelease(st, lp, pos, false)
 	r.inWait = false
 	r.lockAcquire(st, lp, "w", pos)
-	// interference assumptions declared by the function's contract
+	return true
+}
+
+// applyRely: interference assumptions declared by the function's contract, assumed after
+// every lock acquisition (including the re-acquisition inside cond.Wait).
+func (r *Runner) applyRely(st *State) bool {
 	if r.curSpec != nil && len(st.frames) > 0 {
 		top := st.frames[0]
 		for _, c := range r.curSpec.Rely {
@@ -756,11 +767,34 @@ func (r *Runner) condWait(st *State, f *Frame, c Val, pos token.Pos) bool {
 					env.vars[n] = top.params[i]
 				}
 			}
-			st.assume(env.EvalBool(c.E, st))
-			r.note("rely[" + c.Label + "] assumed after cond.Wait: " + c.Src)
+			func() {
+				// a rely clause may mention locals that do not exist yet at an early acquisition: skip it there
+				defer func() {
+					if e := recover(); e != nil {
+						se, ok := e.(specErr)
+						if !ok {
+							panic(e)
+						}
+						r.note("rely[" + c.Label + "] not applicable at this acquisition: " + se.msg)
+					}
+				}()
+				t := env.EvalBool(c.E, st)
+				st.assume(t)
+				r.note("rely[" + c.Label + "] assumed after lock acquisition: " + c.Src)
+			}()
 		}
 	}
 	return true
 }
 
-func (r *Runner) condSignal(st *State, f *Frame, c Val, pos token.Pos) {}
+func (r *Runner) condSignal(st *State, f *Frame, c Val, pos token.Pos) {
+	lp := c.Lk
+	if lp == nil {
+		lp = r.condLocker(st, c)
+	}
+	if lp == nil {
+		return
+	}
+	// a wake-up is now pending for every waiter: no unsignalled falsification remains
+	delete(st.ghost, "needsignal:"+lockKey(lp))
+}
